@@ -12,6 +12,9 @@ want = set(a.upper() for a in sys.argv[1:])
 res_path = os.path.join(ROOT, "mutants", "results.json")
 results = json.load(open(res_path)) if os.path.exists(res_path) else {}
 assert subprocess.run(["git", "-C", "/repo", "status", "--porcelain", "--untracked-files=no"], capture_output=True, text=True).stdout.strip() == "", "/repo has uncommitted changes"
+subprocess.run(["cp", "-r", os.path.join(ROOT, "evidence"), "/tmp/evidence.bak.mutants"])
+import atexit
+atexit.register(lambda: subprocess.run("rm -rf %s/evidence && mv /tmp/evidence.bak.mutants %s/evidence" % (ROOT, ROOT), shell=True))
 for m in MUTANTS:
     if want and m["prop"] not in want and f'{m["prop"]}/{m["name"]}' not in sys.argv[1:]:
         continue
@@ -22,9 +25,17 @@ for m in MUTANTS:
     try:
         open(path, "w").write(src.replace(m["old"], m["new"], m["count"]))
         t = time.time()
-        p = subprocess.run([os.path.join(ROOT, "check"), m["prop"], "quick"], capture_output=True, text=True, cwd=ROOT, timeout=1800)
-        out = p.stdout + p.stderr
-        verdict = {0: "MISSED", 1: "caught"}.get(p.returncode, f"infra({p.returncode})")
+        try:
+            p = subprocess.run([os.path.join(ROOT, "check"), m["prop"], "quick"], capture_output=True, text=True, cwd=ROOT, timeout=900)
+            out = p.stdout + p.stderr
+            rc = p.returncode
+        except subprocess.TimeoutExpired as te:
+            out = (te.stdout or b"").decode(errors="replace") if isinstance(te.stdout, bytes) else (te.stdout or "")
+            rc = 124
+            subprocess.run("ps aux | grep 'release/vcheck' | grep -v grep | awk '{print $2}' | xargs -r kill -9", shell=True)
+        verdict = {0: "MISSED", 1: "caught", 124: "TIMEOUT(check did not finish in 900 s)"}.get(rc, f"infra({rc})")
+        class P: pass
+        p = P(); p.returncode = rc
         if p.returncode == 1:
             sigs = sorted(set(l.strip() for l in out.splitlines() if l.strip().startswith("check=")))
             verdict += " " + "; ".join(sigs)[:300]
